@@ -13,6 +13,15 @@ from .world import ProtoWorld
 
 KINDS = ('Build', 'Service')
 
+# type ids of domain types whose simple name is not unique in the crate (set by init_types)
+TY = {'Target': 'Target'}
+
+
+def init_types(prog):
+    for name, mod in (('Target', ('domain',)),):
+        c = prog.types_by_name.get(name, [])
+        TY[name] = '::'.join(mod + (name,)) if len(c) > 1 else name
+
 
 def tid(name, project=None):
     return RStruct('TargetId', {'project_name': NONE if project is None else some(project), 'target_name': name})
@@ -47,11 +56,11 @@ def mk_target(kind, name, deps, input_nonempty=False):
     md = metadata(name, deps)
     inp = resources(files=[RStruct('FilesResource', {'paths': RVec.of(['/p/src']), 'extensions': NONE})]) if input_nonempty else resources()
     if kind == 'build':
-        return REnum('Target', 'Build', {0: RStruct('BuildTarget', {'metadata': md, 'build_script': 'script', 'input': inp, 'output': resources()})})
+        return REnum(TY['Target'], 'Build', {0: RStruct('BuildTarget', {'metadata': md, 'build_script': 'script', 'input': inp, 'output': resources()})})
     if kind == 'service':
-        return REnum('Target', 'Service', {0: RStruct('ServiceTarget', {'metadata': md, 'run_script': 'script', 'input': inp})})
+        return REnum(TY['Target'], 'Service', {0: RStruct('ServiceTarget', {'metadata': md, 'run_script': 'script', 'input': inp})})
     if kind == 'aggregate':
-        return REnum('Target', 'Aggregate', {0: RStruct('AggregateTarget', {'metadata': md})})
+        return REnum(TY['Target'], 'Aggregate', {0: RStruct('AggregateTarget', {'metadata': md})})
     raise ValueError(kind)
 
 
@@ -139,6 +148,7 @@ class ActorModel:
 
     def __init__(self, prog, kind, i, n, watch, dep_syms=None, all_senders=False):
         self.prog = prog
+        init_types(prog)
         self.kind = kind
         self.i = i
         self.n = n
